@@ -66,6 +66,7 @@ def run(prog, tier, extra=None):
     R2 = res.rule("C06.creator-signature", "Block::validate accept paths pass verify_signature(pre_hash, signature, creator)", floor=1)
     R3 = res.rule("C06.hash-coverage", "signed header / hash derivation read the commitment fields", floor=4)
     R5 = res.rule("C06.merkle-positional", "a merkle parent hashes left ++ right with no ordering between the children", floor=1)
+    R6 = res.rule("C06.merkle-covers-all", "every carried transaction contributes at least one leaf to the merkle tree", floor=1)
     R4 = res.rule("C06.verify-block", "verify_block forwards a fetched block only when decoded id and hash equal the advertised ones", floor=2)
 
     bv = BlockValidate(prog)
@@ -212,6 +213,67 @@ def run(prog, tier, extra=None):
         res.add(Finding(R5, "C06.merkle-positional|none", "no MerkleTree body that hashes two child hashes was recognised (anchor moved?)", "saito-core/src/core/consensus/merkle.rs"))
 
     # R4
+    # R6: the root commits to the transaction list only if no transaction can be skipped when the leaves are made: in
+    # MerkleTree::generate, from the start of one iteration over `transactions` the next iteration (or the end of the loop) is not
+    # reachable without pushing a leaf. A leaf loop `for _ in 0..tx.txs_replacements` (a wire field) runs zero times for 0, unless it
+    # sits behind a test txs_replacements > k.
+    mg = prog.body(CORE + "consensus::merkle::MerkleTree::generate")
+    if mg is None:
+        raise LookupError("MerkleTree::generate not found")
+    chm = Chaser(mg)
+    pushes = {bb for bb, t in mg.calls() if (call_name(t) or "").rsplit("::", 1)[-1] in ("push_back", "push", "push_front", "insert")
+              and "MerkleTreeNode" in " ".join(mg.tyix(c)["s"] for c in t.get("cargs", []))}
+    outer = []
+    inner = []
+    for bb, t in mg.calls():
+        if call_name(t) != "std::iter::Iterator::next" or not t["args"]:
+            continue
+        it = chm.origin(t["args"][0])
+        if has_field(it, "transaction::Transaction", "txs_replacements"):
+            inner.append(bb)
+        elif any(x[0] == "param" for x in walk(it)) and "Transaction" in " ".join(mg.tyix(c)["s"] for c in t.get("cargs", [])):
+            outer.append(bb)
+
+    def some_none_edges(nb):
+        sw = mg.term(nb).get("t")
+        hops = 0
+        while sw is not None and mg.term(sw)["k"] != "switch" and hops < 6:
+            sw = mg.term(sw).get("t")
+            hops += 1
+        if sw is None or mg.term(sw)["k"] != "switch":
+            return set(), set()
+        return gate.variant_edges(mg, sw, 1), gate.variant_edges(mg, sw, 0)
+    guards = gate.order_edges(mg, chm, lambda a, c: has_field(a, "transaction::Transaction", "txs_replacements") and c[0] == "const" and isinstance(c[1], int))
+    guard_true_targets = set()
+    for g in guards:
+        k = g["b"][1]
+        if (g["op"] == "Gt" and k >= 0) or (g["op"] == "Ge" and k >= 1):
+            guard_true_targets |= {tgt for (_, tgt) in g["true_edges"]}
+        if (g["op"] == "Le" and k >= 0) or (g["op"] == "Lt" and k >= 1):
+            guard_true_targets |= {tgt for (_, tgt) in g["false_edges"]}
+    assumed = set()
+    for nb in inner:
+        hdr = mg.innermost_loop_containing([nb])
+        loop = mg.natural_loop(hdr) if hdr is not None else set()
+        if any(p_ in loop for p_ in pushes) and any(mg.dominates(gt, nb) for gt in guard_true_targets):
+            assumed |= some_none_edges(nb)[1]      # behind `txs_replacements > k` the leaf loop has run before it is left
+    res.instance(R6, max(len(outer), 1))
+    if not outer or not pushes:
+        res.add(Finding(R6, "C06.merkle-covers-all|anchors", "MerkleTree::generate: loop over the transactions / leaf pushes not found (%d loops, %d pushes)" % (len(outer), len(pushes)), mg.loc(0)))
+    for nb in outer:
+        some, none = some_none_edges(nb)
+        bad = None
+        for (_, tgt) in some:
+            pth = mg.find_path(tgt, {nb} | set(mg.return_blocks()), deleted_edges=assumed, blocked=pushes)
+            if pth:
+                bad = pth
+        if bad:
+            res.add(Finding(R6, "C06.merkle-covers-all|skipped", "MerkleTree::generate can move on to the next transaction without adding a leaf for the current one (a leaf loop "
+                            "over 0..txs_replacements runs zero times for a transaction declaring 0): the root does not commit to that transaction",
+                            mg.loc(bad[0]), {"path": describe_path(mg, bad)}))
+        else:
+            res.sample({"rule": R6, "loop": mg.loc(nb), "leaf_pushes": [mg.loc(x) for x in sorted(pushes)], "verdict": "every iteration pushes a leaf"})
+
     vb = prog.body(CORE + "verification_thread::VerificationThread::verify_block::{closure#0}")
     if vb is None:
         raise LookupError("verify_block not found")
